@@ -14,7 +14,7 @@ class Oracle(BaseOracle):
     def snap(self):
         self.live = self.st.live_procs()
         self.fps = [irx.fingerprint(p._loopir_proc) for p in self.live]
-        self.strs = [str(p) for p in self.live]
+        self.strs = [oracles.sstr(p) for p in self.live]
 
     def rebind(self, st):
         super().rebind(st)
@@ -39,7 +39,7 @@ class Oracle(BaseOracle):
         # queries must be pure too
         if q is not None and self.unit.get("queries", True):
             try:
-                str(q)
+                oracles.sstr(q)
                 q.find_all("_")  # pattern query
             except Exception:
                 pass
@@ -99,7 +99,7 @@ def _fault_points(self, ev, q):
                 q2 = menus.apply_event(self.st.proc, ev, self.st.ns)
                 if irx.canon(q2._loopir_proc) != irx.canon(q._loopir_proc):
                     self.violation({"oracle": "purity", "kind": "result-differs-after-fault", "op": ev["op"], "seed": self.st.seed.name, "at": at},
-                                   {"event": ev, "fault_at_call": at, "clean": str(q), "after_fault": str(q2)})
+                                   {"event": ev, "fault_at_call": at, "clean": oracles.sstr(q), "after_fault": str(q2)})
                     return
             except Exception as ex:
                 self.violation({"oracle": "purity", "kind": "fails-after-fault", "op": ev["op"], "seed": self.st.seed.name, "at": at},
